@@ -12,7 +12,7 @@ CHECKS = {
 
  "C12": dict(category="model_checking", design="DESIGN.md §5 C12",
    technique="explicit-state BFS over all trajectories (append-one-symbol events) with counting model and incremental window conformance",
-   text="Every assigned trajectory over {0,1,2,NaN} up to length 6 (thorough 8; second alphabet with 4-5 cells) is a state; in every state the real MSM matrix for every tau in 1..4 (also tau > length), both window modes and two cell counts is compared entry-for-entry with the counting model, and the real window generators are compared incrementally with the parent state. Off-by-one and NaN-handling errors live at trajectory ends, which is exactly what all short sequences cover. Added: query pairs/triples on ONE MSM instance, and the multi-tau getter with ascending, descending and mixed tau orders in both modes. Later rounds added: trajectories of 65 537 and 100 003 frames against a vectorised counting model, truthy/falsy non-bool mode flags, integer-dtype trajectories.",
+   text="Every assigned trajectory over {0,1,2,NaN} up to length 6 (thorough 8; second alphabet with 4-5 cells) is a state; in every state the real MSM matrix for every tau in 1..4 (also tau > length), both window modes and two cell counts is compared entry-for-entry with the counting model, and the real window generators are compared incrementally with the parent state. Off-by-one and NaN-handling errors live at trajectory ends, which is exactly what all short sequences cover. Added: query pairs/triples on ONE MSM instance, and the multi-tau getter with ascending, descending and mixed tau orders in both modes. Later rounds added: trajectories of 65 537 and 100 003 frames against a vectorised counting model, truthy/falsy non-bool mode flags, integer-dtype trajectories. Short trajectories relabelled onto the highest cell indices of grids with 46 341 to 3 000 000 cells are compared sparsely with the same counting model.",
    note="Trusted: 30-line counting model transcribed from the statement. Bound: length <= 6/8, <= 5 symbols."),
  "C01": dict(category="exploration", design="DESIGN.md §5 C01",
    technique="exhaustive enumeration of sparsity patterns x energy alphabet x storage forms against a dense-loop oracle",
@@ -33,11 +33,11 @@ CHECKS = {
 
  "C03": dict(category="exploration", design="DESIGN.md §3 O-S2, §5 C03",
    technique="exhaustive enumeration over every N and every pair against an independent arc-clipping spherical Voronoi oracle",
-   text="For ico, cube3D and randomS and EVERY N in 4..130 (thorough 4..330 plus level boundaries up to 1000) every pair (i,j) of the real grid's adjacency, border and distance matrices and every cell area is compared with a Qhull-free oracle that clips bisector great circles; symmetry, diagonal, common pattern, entry order and the 4 pi sum are checked on every grid. Added: all getter words of length <= 3 (exact/approx areas, adjacency, borders, distances) on one grid object, compared bitwise with the first call on a fresh object. Later rounds added: the grid-level getter grid.get_voronoi_volumes() read next to the Voronoi object's areas.",
+   text="For ico, cube3D and randomS and EVERY N in 4..130 (thorough 4..330 plus level boundaries up to 1000) every pair (i,j) of the real grid's adjacency, border and distance matrices and every cell area is compared with a Qhull-free oracle that clips bisector great circles; symmetry, diagonal, common pattern, entry order and the 4 pi sum are checked on every grid. Added: all getter words of length <= 3 (exact/approx areas, adjacency, borders, distances) on one grid object, compared bitwise with the first call on a fresh object. Later rounds added: the grid-level getter grid.get_voronoi_volumes() read next to the Voronoi object's areas. Histories of several grids built in ONE fresh process (every ordered pair of algorithms at equal N, the same grid again after another one; DESIGN 9.12) are judged by the same oracle, so state carried between objects is detected.",
    note="Trusted: mc/oracles/s2.py (closed-form arc intersection, Van Oosterom-Strackee areas). Tolerance 1e-7."),
  "C04": dict(category="exploration", design="DESIGN.md §3 O-S3, §5 C04",
    technique="exhaustive enumeration over every N and every pair against a gnomonic polygon-clipping S^3 Voronoi oracle folded over sign",
-   text="For cube4D and randomQ and EVERY N in 4..40 (thorough 4..80, 100, 150, 272) every pair of rotations incl. index 0 and pairs adjacent only through the antipode is compared with Voronoi faces of {+-q} computed by planar Sutherland-Hodgman clipping in gnomonic projection (independent of Qhull); symmetry, diagonal, common pattern, distances and single-face borders are checked. Added: getter-order words of length <= 3 on one rotation-grid object.",
+   text="For cube4D and randomQ and EVERY N in 4..40 (thorough 4..80, 100, 150, 272) every pair of rotations incl. index 0 and pairs adjacent only through the antipode is compared with Voronoi faces of {+-q} computed by planar Sutherland-Hodgman clipping in gnomonic projection (independent of Qhull); symmetry, diagonal, common pattern, distances and single-face borders are checked. Added: getter-order words of length <= 3 on one rotation-grid object. Histories of several grids built in ONE fresh process (every ordered pair of algorithms at equal N, the same grid again after another one; DESIGN 9.12) are judged by the same oracle, so state carried between objects is detected.",
    note="Trusted: mc/oracles/s3.py. Border tolerance 1e-6 (measured 3e-9 after fix F14); borders of two-face pairs are not compared (left open by the statement)."),
  "C05": dict(category="exploration", design="DESIGN.md §5 C05",
    technique="exhaustive enumeration of direction grids x radial grids, every cell and pair against closed forms on the O-S2 oracle",
@@ -45,11 +45,11 @@ CHECKS = {
    note="Trusted: O-S2 and 40 lines of closed forms; radii of the oracle come from exact rationals. Tolerance 1e-7 relative."),
  "C06": dict(category="exploration", design="DESIGN.md §3 O-E3, §5 C06",
    technique="exhaustive enumeration over every N x radial grids against a Qhull-free cone/slab closed form of the Euclidean Voronoi cells (Qhull ridge areas as oracle self-check)",
-   text="3 algorithms x every N in 4..45 plus 48..55, 80, 92, 98, 100, 162 (thorough every N to 100) x radial grids incl. the shipped 10-shell default in Cartesian mode: every cell volume, every adjacent pair's planar face area and Euclidean distance is compared with the exact cone-over-spherical-cell closed form; positivity, symmetry, pattern and entry order are checked. Open-cell grids (F6) are reported as known findings. Added: all getter words of length <= 3 on one Cartesian PositionGrid. Later rounds added: the FullGrid-level route (n_b=1, f=1) to the Cartesian matrices, nearly coincident radii, and an own key for any value other than the documented 0.0 reported for an unbounded cell (so the listed finding F6 only matches its exact signature).",
+   text="3 algorithms x every N in 4..45 plus 48..55, 80, 92, 98, 100, 162 (thorough every N to 100) x radial grids incl. the shipped 10-shell default in Cartesian mode: every cell volume, every adjacent pair's planar face area and Euclidean distance is compared with the exact cone-over-spherical-cell closed form; positivity, symmetry, pattern and entry order are checked. Open-cell grids (F6) are reported as known findings. Added: all getter words of length <= 3 on one Cartesian PositionGrid. Later rounds added: the FullGrid-level route (n_b=1, f=1) to the Cartesian matrices, nearly coincident radii, and an own key for any value other than the documented 0.0 reported for an unbounded cell (so the listed finding F6 only matches its exact signature). Histories of several grids built in ONE fresh process (every ordered pair of algorithms at equal N, the same grid again after another one; DESIGN 9.12) are judged by the same oracle, so state carried between objects is detected.",
    note="Trusted: cone/slab argument (DESIGN O-E3) + O-S2; cross-checked against convex-hull areas of scipy Voronoi ridges on one radial grid per (alg, N). Tolerance 1e-6 relative."),
  "C15": dict(category="exploration", design="DESIGN.md §3 O-MC, §5 C15",
    technique="exhaustive enumeration over every N and every cell against the Monte-Carlo nearest-rotation measure prescribed by the property",
-   text="cube4D and randomQ x every N in 1..40 (thorough 1..80, 100, 272): every cell volume is compared with the measure of its nearest-rotation region estimated from 400000 uniform points on S^3 (private PCG64 stream), plus positivity, first-N-of-2N, the 12 % sum band and the equal-share rule for N<4. The exploration over N and cells is exhaustive; only the oracle is statistical, as the property defines it. Later rounds added: N = 113 (quick) and 150, 420 (thorough), the grid-level getter.",
+   text="cube4D and randomQ x every N in 1..40 (thorough 1..80, 100, 272): every cell volume is compared with the measure of its nearest-rotation region estimated from 400000 uniform points on S^3 (private PCG64 stream), plus positivity, first-N-of-2N, the 12 % sum band and the equal-share rule for N<4. The exploration over N and cells is exhaustive; only the oracle is statistical, as the property defines it. Later rounds added: N = 113 (quick) and 150, 420 (thorough), the grid-level getter. Histories of several grids built in ONE fresh process (every ordered pair of algorithms at equal N, the same grid again after another one; DESIGN 9.12) are judged by the same oracle, so state carried between objects is detected.",
    note="A cell is flagged only beyond 30 % + 5 standard errors, so oracle noise cannot raise an alarm. F10 (randomQ_5 cell 4) is a listed finding."),
  "C02": dict(category="exploration", design="DESIGN.md §5 C02",
    technique="exhaustive enumeration of grid combinations; every pair of cells against an independent Kronecker-sum composition of the factor matrices",
